@@ -182,6 +182,8 @@ pub struct WriterState {
     pub stalled: bool,
     /// total offset at which writes start failing
     pub err_at: Option<usize>,
+    /// total offset from which the sink accepts nothing more: poll_write returns Ok(0) (a full fixed-size sink, a closed pipe)
+    pub zero_at: Option<usize>,
     pub waker: Option<Waker>,
     pub pendings: u64,
     pub calls_in_poll: u64,
@@ -202,6 +204,7 @@ impl MockWriter {
             alt: false,
             stalled: false,
             err_at: None,
+            zero_at: None,
             waker: None,
             pendings: 0,
             calls_in_poll: 0,
@@ -228,6 +231,12 @@ impl AsyncWrite for MockWriter {
                 return Poll::Ready(Err(io::Error::new(io::ErrorKind::BrokenPipe, "mock write error")));
             }
         }
+        if let Some(at) = s.zero_at {
+            if s.written.len() >= at {
+                s.err_signalled = true;
+                return Poll::Ready(Ok(0));
+            }
+        }
         if s.stalled {
             s.waker = Some(cx.waker().clone());
             s.pendings += 1;
@@ -251,6 +260,9 @@ impl AsyncWrite for MockWriter {
             }
         };
         if let Some(at) = s.err_at {
+            n = n.min(at - s.written.len());
+        }
+        if let Some(at) = s.zero_at {
             n = n.min(at - s.written.len());
         }
         s.written.extend_from_slice(&buf[..n]);
